@@ -20,7 +20,7 @@ PROP = 'C17'
 MANIFEST = dict(
     category='exploration', design_ref='DESIGN.md §3 C17',
     technique='bounded-exhaustive enumeration of lexicons per detachment rule x feature subsets x query strings x pos x mode on the real Morphy and Wordnet search vs a reference written from the rule table',
-    text='For each of the 24 WN detachment rules (12 noun, 8 verb, 4 adjective; satellite adjectives share the adjective rules) and each of several stems, every subset of five lexicon features (candidate lemma present with the rule\'s pos / with another pos, inflected form itself a lemma, inflected form an additional form of another word, an a/s twin entry), and every pair of rules sharing a suffix, is stored; an initialized Morphy must return exactly, per part of speech, the query if it is a lemma of that pos, the lemmas of words listing the query as an additional form, and the rule outputs that are lemmas of that pos - no other keys, no empty sets, nothing for unknown parts of speech; an uninitialized Morphy must return the original form under the requested pos plus exactly every rule output under its pos, never detaching a suffix that is the whole word. Wordnet.words/senses/synsets with either lemmatizer must equal the union of what each proposed (pos, form) pair finds, duplicate-free.',
+    text='For each of the 24 WN detachment rules (12 noun, 8 verb, 4 adjective; satellite adjectives share the adjective rules) and each of several stems, every subset of five lexicon features (candidate lemma present with the rule\'s pos / with another pos, inflected form itself a lemma, inflected form an additional form of another word, an a/s twin entry), and every pair of rules sharing a suffix, is stored; an initialized Morphy must return exactly, per part of speech, the query if it is a lemma of that pos, the lemmas of words listing the query as an additional form, and the rule outputs that are lemmas of that pos - no other keys, no empty sets, nothing for unknown parts of speech; an uninitialized Morphy must return the original form under the requested pos plus exactly every rule output under its pos, never detaching a suffix that is the whole word. Wordnet.words/senses/synsets with either lemmatizer must equal the union of what each proposed (pos, form) pair finds, duplicate-free. One Wordnet object whose documented .lemmatizer attribute is assigned and swapped (none, initialized, uninitialized, none, initialized) between identical queries must answer each time as the union for the lemmatizer in place.',
     note='The 24-rule table in the oracle is the specification (docs/api/wn.morphy.rst refers to Princeton Morphy; the property fixes the WN subset).',
 )
 
